@@ -13,7 +13,7 @@ pub fn def() -> PropDef {
         predicate,
         nontrivial,
         functional: true,
-        rule: "all ordered pairs of a 60-element i64 boundary set and a 60-element u64 boundary set under + - * / % (direct Value operators, literals in source text, context variables), unary minus over the set, mixed int/uint/double pairs, plus uniform and log-uniform random pairs; a case is non-trivial when both operands are integers of the same kind (it reaches a checked_* arm); distinct = distinct (form, op, a, b)",
+        rule: "all ordered pairs of a 60-element i64 boundary set and a 60-element u64 boundary set under + - * / % (direct Value operators, literals in source text, context variables), unary minus over the set (also nested), chains of 3-5 operands whose partial results overflow while the total fits (and the reverse), flat and right-nested, mixed int/uint/double pairs, plus uniform and log-uniform random pairs; a case is non-trivial when both operands are integers of the same kind (it reaches a checked_* arm); distinct = distinct (form, op, a, b)",
         post: super::no_post,
         exhaustive_note: "boundary-pair enumeration is complete; random pairs are a sample",
     }
@@ -151,6 +151,39 @@ pub fn generate(tier: Tier, rng: &mut Rng) -> Vec<Case> {
         out.extend(src_case(&spec, "-x".to_string(), vec!["neg", "uint"]));
         out.extend(src_case(&spec, "-(-x)".to_string(), vec!["neg", "uint", "nested"]));
         out.extend(src_case(&spec, "--x".to_string(), vec!["neg", "uint", "nested"]));
+    }
+    // chains of three to five operands: the operations are performed one by one in the order the
+    // grammar gives (left to right for equal precedence, parentheses first), each checked on its
+    // own - a partial result that overflows is an error even when the whole sum would fit, and a
+    // regrouping that avoids (or creates) an overflow changes the outcome
+    {
+        let mut spec = CtxSpec::default_ctx();
+        spec.vars = vec![("a".into(), Value::Int(i64::MAX)), ("b".into(), Value::Int(1)), ("c".into(), Value::Int(-1)), ("d".into(), Value::Int(i64::MIN)), ("z".into(), Value::Int(0)),
+            ("ua".into(), Value::UInt(u64::MAX)), ("ub".into(), Value::UInt(1)), ("uz".into(), Value::UInt(0))];
+        let ops = ["+", "-", "*"];
+        let atoms = ["a", "b", "c", "d", "z", "9223372036854775807", "1", "-1", "0", "2", "-9223372036854775808"];
+        for n in 3..=5usize {
+            let reps = if tier == Tier::Quick { 260 } else { 6000 };
+            for _ in 0..reps {
+                let xs: Vec<&str> = (0..n).map(|_| *rng.pick(&atoms)).collect();
+                let os: Vec<&str> = (0..n - 1).map(|_| if rng.chance(2, 3) { "+" } else { *rng.pick(&ops) }).collect();
+                let mut flat = xs[0].to_string();
+                for i in 1..n {
+                    flat.push_str(&format!(" {} {}", os[i - 1], xs[i]));
+                }
+                out.extend(src_case(&spec, flat, vec!["chain", "flat"]));
+                // the same operands grouped from the right
+                let mut right = xs[n - 1].to_string();
+                for i in (0..n - 1).rev() {
+                    right = format!("{} {} ({right})", xs[i], os[i]);
+                }
+                out.extend(src_case(&spec, right, vec!["chain", "right-nested"]));
+            }
+        }
+        for src in ["a + z + b + c", "a + b + c", "a + (b + c)", "a + c + b", "d - b + b", "d + b - b", "d - (b - b)", "a + z + z + z + b", "b + c + a + b", "(a + c) + (b + z)", "a - c - b - b", "d + a + d + a",
+            "ua + uz + ub - ub", "ua - ub + ub", "ua + (ub - ub)", "uz - ub + ub", "ub + ua - ub", "a * b * c * c", "d * c * c", "d / c * z", "a + b * z", "(a + b) * z", "z * (a + b)", "a % b + a + b"] {
+            out.extend(src_case(&spec, src.to_string(), vec!["chain", "fixed"]));
+        }
     }
     // mixed numeric kinds are errors, never coercions
     let mixed = ["(int 1)", "(uint 1)", "(dbl 3ff0000000000000)", "(int 0)", "(uint 0)", "(dbl 0000000000000000)", "(int -1)", "(uint 18446744073709551615)", "(dbl 7ff8000000000000)"];
